@@ -1,13 +1,16 @@
 (* C18 — stream ownership (closefd) is honoured on every path, including failures.
    Model: Model/Ownership.v interpreting the skeleton regenerated from the source (Gen/GenOwnership.v: the except clauses
    of open_las, the close methods of LasReader/LasWriter/LasAppender and of the point readers the reader delegates to,
-   the lazily created point source, LasData._write_to's closefd, the stream operations of header reading). *)
+   the lazily created point source, LasData._write_to's closefd, the stream operations of header reading, how
+   LasHeader.read_evlrs and LasReader.read ask a stream whether it can seek).
+   A stream is one of three kinds (seekcap): it answers seekable() with True, with False, or it has no `seekable`
+   attribute at all - a source that offers only read(). *)
 From Coq Require Import ZArith List Bool.
 From LasV Require Import Lib.Base Gen.GenCursor Gen.GenOwnership Model.Ownership Proofs.OwnershipProofs.
 Import ListNotations.
 Open Scope Z_scope.
 
-(* Every history of events on a stream (seekable or not) that stands anywhere when laspy first gets it: sessions in mode r/w/a with closefd true/false, opening
+(* Every history of events on a stream (of any of the three kinds) that stands anywhere when laspy first gets it: sessions in mode r/w/a with closefd true/false, opening
    that succeeds or fails with a LaspyException or with another exception (empty source, bad signature, truncated header,
    undecodable VLR, incompatible header, non-seekable stream for append), reads/seeks/full reads that do or do not create
    the point source (the real one or the empty-file one) or that FAIL after a successful open (a point area that ends
@@ -18,12 +21,12 @@ Open Scope Z_scope.
    The single exit excluded by obs_ok is HPrecondition — mode w asserting that the destination is seekable BEFORE its
    try block — which is not among the failures the property lists (invalid content, unusable header); what happens there
    is C18_w_nonseekable_untouched. *)
-Theorem C18_iff : forall seekable p evs, Forall obs_ok (st_log (run (init_at seekable p) evs)).
+Theorem C18_iff : forall cap p evs, Forall obs_ok (st_log (run (init_at cap p) evs)).
 Proof. exact ownership_iff. Qed.
 Print Assumptions C18_iff.
 
 (* the same, as the boolean the extracted model evaluates during the correspondence runs *)
-Theorem C18_iff_bool : forall seekable p evs, forallb obs_okb (st_log (run (init_at seekable p) evs)) = true.
+Theorem C18_iff_bool : forall cap p evs, forallb obs_okb (st_log (run (init_at cap p) evs)) = true.
 Proof. exact ownership_iff_b. Qed.
 Print Assumptions C18_iff_bool.
 
@@ -36,12 +39,13 @@ Proof. exact failed_open. Qed.
 Print Assumptions C18_failed_open.
 
 (* which opens fail (open_exn: the content or the header is what it is - or, for a reader that loads the EVLRs while
-   opening, these cannot be decoded) and which give a handle: the handle carries the caller's closefd, has no point source yet, and the
+   opening, these cannot be decoded, or the stream cannot even be asked whether it can seek: `stream.seekable()` on an
+   object without that attribute) and which give a handle: the handle carries the caller's closefd, has no point source yet, and the
    stream is still open *)
 Theorem C18_open_outcome : forall t m cf re f o, st_h t = None -> s_closed (st_s t) = false ->
   (gen_open_pre_assert_seekable m = true -> s_seekable (st_s t) = true) ->
   (is_a m = true -> s_seekable (st_s t) = true) ->
-  match open_exn m o f re (s_seekable (st_s t)) with
+  match open_exn m o f re (s_cap (st_s t)) with
   | Some x => snd (step t (EOpen m cf re f o)) = RRaised x
   | None => snd (step t (EOpen m cf re f o)) = RDone /\
             exists h, st_h (fst (step t (EOpen m cf re f o))) = Some h /\ h_mode h = m /\ h_closefd h = cf /\ h_ps h = PNone /\
@@ -52,9 +56,9 @@ Print Assumptions C18_open_outcome.
 
 (* normal exit, explicit close, exception in the with-body, after any history (point source created or not, by a read,
    a seek, read() on an empty file with deferred EVLRs, or direct access): closed iff closefd, and the handle is gone *)
-Theorem C18_handle_gone : forall seekable p evs e h, is_end e = true -> st_h (run (init_at seekable p) evs) = Some h ->
-  st_h (fst (step (run (init_at seekable p) evs) e)) = None /\
-  s_closed (st_s (fst (step (run (init_at seekable p) evs) e))) = h_declared h /\ h_closefd h = h_declared h.
+Theorem C18_handle_gone : forall cap p evs e h, is_end e = true -> st_h (run (init_at cap p) evs) = Some h ->
+  st_h (fst (step (run (init_at cap p) evs) e)) = None /\
+  s_closed (st_s (fst (step (run (init_at cap p) evs) e))) = h_declared h /\ h_closefd h = h_declared h.
 Proof. exact handle_gone. Qed.
 Print Assumptions C18_handle_gone.
 
@@ -66,10 +70,10 @@ Print Assumptions C18_write_keeps_open.
 
 (* laspy.read(stream, closefd): closed iff closefd whether reading succeeds, opening fails, or read() fails after the
    open succeeded (any f: torn point area, undecodable EVLRs left for read()) *)
-Theorem C18_read_las : forall seekable p evs cf f o,
-  st_h (run (init_at seekable p) evs) = None -> s_closed (st_s (run (init_at seekable p) evs)) = false ->
-  st_h (fst (step (run (init_at seekable p) evs) (EReadLas cf f o))) = None /\
-  s_closed (st_s (fst (step (run (init_at seekable p) evs) (EReadLas cf f o)))) = cf.
+Theorem C18_read_las : forall cap p evs cf f o,
+  st_h (run (init_at cap p) evs) = None -> s_closed (st_s (run (init_at cap p) evs)) = false ->
+  st_h (fst (step (run (init_at cap p) evs) (EReadLas cf f o))) = None /\
+  s_closed (st_s (fst (step (run (init_at cap p) evs) (EReadLas cf f o)))) = cf.
 Proof. exact read_las_closes. Qed.
 Print Assumptions C18_read_las.
 
@@ -83,7 +87,10 @@ Theorem C18_position : forall t cf re f o, st_h t = None -> s_closed (st_s t) = 
 Proof. exact open_position. Qed.
 Print Assumptions C18_position.
 
+(* the hypothesis `snd .. = RDone` is not vacuous: a well-formed file whose EVLRs decode opens on every stream that can be
+   asked whether it can seek - with the question spelt `getattr(stream, "seekable", lambda: False)()` that is every stream *)
 Theorem C18_open_succeeds : forall t cf re f, st_h t = None -> s_closed (st_s t) = false -> f_evlr_bad f = false ->
+  query gen_read_evlrs_query (s_cap (st_s t)) <> None ->
   snd (step t (EOpen MR cf re f OOk)) = RDone.
 Proof. exact open_ok_succeeds. Qed.
 Print Assumptions C18_open_succeeds.
@@ -112,9 +119,10 @@ Proof. exact torn_points_raise. Qed.
 Print Assumptions C18_torn_points_raise.
 
 (* EVLRs that cannot be decoded fail where they are loaded: at opening (closed iff closefd) when asked for on a stream
-   that can seek, in read() - once the points are read - otherwise *)
+   that can seek, in read() - once the points are read - otherwise (the stream being one that can be asked) *)
 Theorem C18_bad_evlrs_fail_where_loaded : forall t cf re f, st_h t = None -> s_closed (st_s t) = false ->
   f_evlr_bad f = true -> 4 <= f_minor f -> 0 < f_nevlrs f ->
+  query gen_read_evlrs_query (s_cap (st_s t)) <> None ->
   let r := step t (EOpen MR cf re f OOk) in
   if re && s_seekable (st_s t)
   then snd r = RRaised XOther /\ st_h (fst r) = None /\ s_closed (st_s (fst r)) = cf
@@ -123,7 +131,34 @@ Theorem C18_bad_evlrs_fail_where_loaded : forall t cf re f, st_h t = None -> s_c
 Proof. exact bad_evlrs_fail_where_loaded. Qed.
 Print Assumptions C18_bad_evlrs_fail_where_loaded.
 
-(* the exit C18_iff leaves out: mode w on a non-seekable destination is refused before the try; the stream is untouched *)
+(* a source that offers only read() (no `seekable` attribute) handed to a reader of a 1.4 file that announces EVLRs.
+   Both spellings of the question are stated, the generated term says which one the source uses:
+   `getattr(stream, "seekable", lambda: False)()` - it is a legal source that cannot seek: the open succeeds with or
+   without preloading, the stream stays open, the handle carries the caller's closefd, the EVLRs are left for read(),
+   which (asking in the same way) takes them where the stream stands after the last point;
+   `stream.seekable()` - preloading fails with AttributeError inside the try of open_las: the stream is closed iff
+   closefd (C18_iff covers both; this says which of its cases such a source falls into) *)
+Theorem C18_read_only_source : forall t cf re f, st_h t = None -> s_closed (st_s t) = false -> s_cap (st_s t) = CapAbsent ->
+  f_evlr_bad f = false -> 4 <= f_minor f -> 0 < f_nevlrs f ->
+  let r := step t (EOpen MR cf re f OOk) in
+  match gen_read_evlrs_query with
+  | QGetattrFalse =>
+      snd r = RDone /\ s_closed (st_s (fst r)) = false /\
+      exists h, st_h (fst r) = Some h /\ h_closefd h = cf /\ h_pending_evlrs h = true /\
+        match gen_reader_read_query with
+        | QGetattrFalse => forall s, s_cap s = CapAbsent ->
+            do_read_all (set_ps (set_read h (f_count f)) (PReal true)) s =
+            (clear_pending (set_ps (set_read h (f_count f)) (PReal true)), set_pos s (rd (f_size f) (s_pos s) (f_evlr_bytes f)), RDone)
+        | QCall => forall s, s_cap s = CapAbsent -> snd (do_read_all (set_ps (set_read h (f_count f)) (PReal true)) s) = RRaised XOther
+        end
+  | QCall => if re then snd r = RRaised XOther /\ st_h (fst r) = None /\ s_closed (st_s (fst r)) = cf
+             else snd r = RDone /\ s_closed (st_s (fst r)) = false
+  end.
+Proof. exact read_only_source. Qed.
+Print Assumptions C18_read_only_source.
+
+(* the exit C18_iff leaves out: mode w on a destination that answers no (or cannot answer) is refused before the try; the
+   stream is untouched *)
 Theorem C18_w_nonseekable_untouched : forall t m cf re f o, st_h t = None ->
   gen_open_pre_assert_seekable m = true -> s_seekable (st_s t) = false ->
   st_s (fst (step t (EOpen m cf re f o))) = st_s t /\ st_h (fst (step t (EOpen m cf re f o))) = None.
@@ -141,21 +176,30 @@ Print Assumptions C18_skeleton_shapes.
    empty-file point reader and the close is delegated to it; then a second stream: failing append (bad VLR, non-Laspy
    exception) with closefd, and a reader with closefd=false that reads, is closed explicitly, LasData.write, laspy.read;
    a non-seekable stream handed over at byte 64 whose last record is cut: open leaves it at 64 + 227, read() raises,
-   the stream stays open (closefd=false); laspy.read with closefd on what is left (nothing) fails and closes *)
+   the stream stays open (closefd=false); laspy.read with closefd on what is left (nothing) fails and closes;
+   a source that offers only read(), handed over at byte 10: mode w refuses it before its try (closefd or not, it stays
+   open), mode a fails inside its try (closefd=false: stays open), a reader takes it, reads the 5 records, cannot seek,
+   the with-body raises (closefd=false: open), laspy.read with closefd on the rest fails and closes *)
 Example C18_nonvacuous :
   let f0 := mkF 375 0 30 4 1 375 100 475 false in
   let f1 := mkF 227 5 20 2 0 0 0 327 false in
   let f2 := mkF 227 5 20 2 0 0 0 (64 + 310) false in     (* 64 bytes of something else first; the last record is cut *)
+  let f3 := mkF 227 5 20 2 0 0 0 (10 + 327) false in
   (map (fun '(r, t) => (r, s_closed (st_s t), s_pos (st_s t), match st_h t with Some h => Some (h_ps h) | None => None end))
-       (trace (init true) [EOpen MR true false f0 OOk; EReadAll; EExit; EOpen MR true true f0 OOk]),
+       (trace (init CapYes) [EOpen MR true false f0 OOk; EReadAll; EExit; EOpen MR true true f0 OOk]),
    map (fun '(r, t) => (r, s_closed (st_s t), s_pos (st_s t)))
-       (trace (init true) [EOpen MA true true f1 OBadVlr]),
+       (trace (init CapYes) [EOpen MA true true f1 OBadVlr]),
    map (fun '(r, t) => (r, s_closed (st_s t), s_pos (st_s t)))
-       (trace (init true) [EOpen MR false true f1 OOk; EReadPoints 2; ESeek 4 0; EClose; ELasDataWrite OOk; ERewind 0; EReadLas true f1 OOk]),
+       (trace (init CapYes) [EOpen MR false true f1 OOk; EReadPoints 2; ESeek 4 0; EClose; ELasDataWrite OOk; ERewind 0; EReadLas true f1 OOk]),
    map (fun '(r, t) => (r, s_closed (st_s t), s_pos (st_s t)))
-       (trace (init_at false 64) [EOpen MR false true f2 OOk; EReadPoints 2; EReadAll; EExit; EReadLas true f2 OEmpty]))
+       (trace (init_at CapNo 64) [EOpen MR false true f2 OOk; EReadPoints 2; EReadAll; EExit; EReadLas true f2 OEmpty]),
+   map (fun '(r, t) => (r, s_closed (st_s t), s_pos (st_s t)))
+       (trace (init_at CapAbsent 10) [EOpen MW true true f1 OOk; EOpen MA false true f1 OOk; EOpen MR false true f3 OOk; EReadPoints 5;
+                                      ESeek 0 0; EBodyRaises XLaspy; EReadLas true f3 OBadSig]))
   = ([(RDone, false, 375, Some PNone); (RDone, false, 375, Some (PNull true)); (RDone, true, 375, None); (RRaised XOther, true, 375, None)],
      [(RRaised XOther, true, 0)],
      [(RDone, false, 227); (RDone, false, 267); (RDone, false, 307); (RDone, false, 307); (RDone, false, 307); (RDone, false, 0); (RDone, true, 327)],
-     [(RDone, false, 291); (RDone, false, 331); (RRaised XOther, false, 374); (RDone, false, 374); (RRaised XLaspy, true, 374)]).
+     [(RDone, false, 291); (RDone, false, 331); (RRaised XOther, false, 374); (RDone, false, 374); (RRaised XLaspy, true, 374)],
+     [(RRaised XOther, false, 10); (RRaised XOther, false, 10); (RDone, false, 237); (RDone, false, 337); (RRaised XOther, false, 337);
+      (RRaised XLaspy, false, 337); (RRaised XLaspy, true, 337)]).
 Proof. vm_compute. reflexivity. Qed.
